@@ -183,6 +183,13 @@ func deliver(text string) (io.Reader, func()) {
 	case x == 1:
 		deliveries["bufio"]++
 		return bufio.NewReaderSize(strings.NewReader(text), 16), func() {}
+	case x == 4:
+		// the last bytes arrive together with io.EOF (as from gzip/zip streams)
+		deliveries["data_with_eof"]++
+		return iotest.DataErrReader(strings.NewReader(text)), func() {}
+	case x == 5:
+		deliveries["data_with_eof_in_small_chunks"]++
+		return iotest.DataErrReader(iotest.HalfReader(strings.NewReader(text))), func() {}
 	case x == 2 && len(text) < 1<<20:
 		pr, pw, err := os.Pipe()
 		if err != nil {
